@@ -28,6 +28,8 @@ def run(tier, seed):
         run_hex(rep, f"HS4xSL direct prune={prune} (identical sub-tries: nodes referenced twice)", universe="HS4", values=("S", "L"), prune=prune, props=P)
         run_hex(rep, f"HP3 x sentinel-valued contents prune={prune} (value == hash of the blank root)", universe="HP3", values=("S", "VBNH"),
                 prune=prune, props=P)
+        run_hex(rep, f"H3xSL nested batches prune={prune}", universe="H3", values=("S", "L"), prune=prune, props=P, batch_len=1,
+                exits=("commit", "abort"), nested=True, direct=False)
         run_hex(rep, f"H3xSL chains of 3 consecutive operations on ONE live object prune={prune}", universe="H3", values=("S", "L"), prune=prune,
                 props=P, chain=3)
         run_hex(rep, f"H3xSL pairs of consecutive events on ONE live object (direct + batches) prune={prune}", universe="H3", values=("S", "L"),
